@@ -37,8 +37,8 @@ ASSUMPTIONS = ["simulated MPI: eager non-blocking sends, non-overtaking per (src
 MIN_MONITOR = {"mon.programs": 100, "mon.schedules": 2000, "mon.messages_checked": 3000,
                "mon.exhaustive_programs": 20, "mon.context_events": 10000}
 SHARD_TIMEOUT = {"quick": 900, "thorough": 7200}
-N_PROGRAMS = {"quick": 320, "thorough": 6000}
-EXH_CAP = {"quick": 400, "thorough": 3000}        # schedules per exhaustively explored program
+N_PROGRAMS = {"quick": 320, "thorough": 3200}
+EXH_CAP = {"quick": 400, "thorough": 2400}        # schedules per exhaustively explored program
 RANDOM_SCHEDULES = {"quick": 24, "thorough": 80}
 STYLES = ["uniform", "last", "first", "all", "one", "uniform"]
 
